@@ -202,8 +202,11 @@ pub(crate) fn sort_requires(ctx: &Context, input_ast: Ast) -> Ast {
                 list.sort_by_key(|key| key.0.clone());
 
                 // Mutate the first element with our leading trivia
+                // If a different statement is first now, it keeps its own leading trivia (e.g. a comment) after it
                 match list.first_mut() {
                     Some((_, (Stmt::LocalAssignment(local_assignment), _))) => {
+                        let mut leading_trivia: Vec<full_moon::tokenizer::Token> = leading_trivia;
+                        leading_trivia.extend(local_assignment.local_token().leading_trivia().cloned());
                         *local_assignment = local_assignment
                             .update_leading_trivia(FormatTriviaType::Replace(leading_trivia))
                     }
